@@ -542,12 +542,15 @@ type server struct {
 	cj         *batchv1.CronJob // the persisted CronJob
 	creates    [][2]int64       // (name, annotated schedule time)
 	deletes    []int64
+	viaGet     []int64 // per delete: 1 if the controller had just fetched that job
+	lastGet    string
 }
 
 var errInjected = errors.New("injected create failure")
 var gr = schema.GroupResource{Group: "batch.volcano.sh", Resource: "jobs"}
 
 func (s *server) GetJobClient(_ vcclientset.Interface, namespace, name string) (*batchv1.Job, error) {
+	s.lastGet = name
 	if namespace == "" && !s.lenient {
 		// client-go rest.Request refuses this before anything is sent
 		return nil, errors.New("an empty namespace may not be set when a resource name is provided")
@@ -564,6 +567,8 @@ func (s *server) GetJobClient(_ vcclientset.Interface, namespace, name string) (
 
 func (s *server) DeleteJobClient(_ vcclientset.Interface, namespace, name string) error {
 	s.deletes = append(s.deletes, parseName(name))
+	s.viaGet = append(s.viaGet, vh.B(s.lastGet == name))
+	s.lastGet = ""
 	if _, ok := s.jobs[name]; !ok || namespace != ns {
 		return apierrors.NewNotFound(gr, name)
 	}
@@ -663,7 +668,7 @@ type obs struct {
 	jobs                 []mjob
 	now                  int64
 	creates              [][2]int64
-	deletes              []int64
+	deletes, viaGet      []int64
 	activeAfter          []mref
 	created              int64
 	deadline             *int64
@@ -781,7 +786,7 @@ func runHistory(in []int64) []int64 {
 				return badInput
 			}
 			srv.now, srv.failCreate = now, fc
-			srv.creates, srv.deletes = nil, nil
+			srv.creates, srv.deletes, srv.viaGet, srv.lastGet = nil, nil, nil, ""
 			// the lister shows the API server's jobs
 			items := []interface{}{}
 			for _, o := range srv.jobs {
@@ -824,7 +829,7 @@ func runHistory(in []int64) []int64 {
 			}
 			outs = append(outs, cat(tag(0), tag(1), eOpt(rqp), tag(2), []int64{vh.B(upd)}, tag(3), []int64{ec},
 				tag(4), cr, tag(5), encList(srv.deletes), tag(6), encStatus(&work.Status)))
-			o.creates, o.deletes, o.activeAfter = srv.creates, srv.deletes, refsOf(&work.Status)
+			o.creates, o.deletes, o.viaGet, o.activeAfter = srv.creates, srv.deletes, srv.viaGet, refsOf(&work.Status)
 			lastHist.obs = append(lastHist.obs, o)
 		case 1:
 			name, ph, at := r.z(), r.enum(3), r.optZ()
@@ -977,7 +982,10 @@ func laws(sel int, in, got []int64, law func(lsel int, lin []int64, sig string))
 			for _, c := range o.creates {
 				l = append(l, c[0], c[1])
 			}
-			l = append(l, encList(o.deletes)...)
+			l = append(l, int64(len(o.deletes)))
+			for i, d := range o.deletes {
+				l = append(l, d, o.viaGet[i])
+			}
 			l = append(l, int64(len(o.activeAfter)))
 			for _, a := range o.activeAfter {
 				l = append(l, a.name, a.uid)
